@@ -68,6 +68,11 @@ func Harness_C08_agent() {
 	upgrade := []string{"", "websocket", "h2c"}[v.Choose("upgrade", 3)]
 	if upgrade != "" {
 		h.Set("Upgrade", upgrade)
+		// the exemption depends on the Upgrade header alone, whatever shape
+		// the Connection header has (absent, exact, Firefox-style list)
+		if c := []string{"", "Upgrade", "keep-alive, Upgrade"}[v.Choose("connection", 3)]; c != "" {
+			h.Set("Connection", c)
+		}
 	}
 	h.Set("X-Custom", v.Str("x-custom"))
 	r := &http.Request{Method: "POST", URL: &url.URL{Path: v.Str("path"), RawQuery: v.Str("query")}, Host: "svc.local", Header: h}
